@@ -35,6 +35,7 @@ var c12Ops = []string{"A0", "A1", "A17", "A5000", "B0", "B1", "B17", "B5000", "A
 
 func c12Run(id string, prefix int, hist []int) *vlib.Result {
 	ctx := context.Background()
+	shape := prefix
 	res := &vlib.Result{Evals: 1}
 	A := &c12Side{conn: &netsim.Buf{}}
 	B := &c12Side{conn: &netsim.Buf{}}
@@ -49,7 +50,36 @@ func c12Run(id string, prefix int, hist []int) *vlib.Result {
 		to.conn.R = append(to.conn.R, w...)
 		return w
 	}
-	// cleartext prefix
+	// cleartext prefix: shapes 0-3 = {A sends a message} x {B sends a two-frame message};
+	// shapes 4-6 = prefixes made of zero-length frames only (A: one empty message,
+	// B: three empty partial frames and an empty end frame, both) - something WAS
+	// sent in the clear, so the digest is that of the frame headers, not all-zero
+	if prefix >= 4 {
+		if prefix == 4 || prefix == 6 {
+			if err := A.s.SendMessage(ctx, nil); err != nil {
+				return fail("harness", "%v", err)
+			}
+			A.clearD.Add(xfer(A, B))
+			if _, err := B.s.ReceiveCompleteMessage(ctx); err != nil {
+				return fail("harness", "%v", err)
+			}
+		}
+		if prefix == 5 || prefix == 6 {
+			for i := 0; i < 3; i++ {
+				if err := B.s.SendPartialMessage(ctx, nil); err != nil {
+					return fail("harness", "%v", err)
+				}
+			}
+			if err := B.s.SendMessage(ctx, nil); err != nil {
+				return fail("harness", "%v", err)
+			}
+			B.clearD.Add(xfer(B, A))
+			if _, err := A.s.ReceiveCompleteMessage(ctx); err != nil {
+				return fail("harness", "%v", err)
+			}
+		}
+		prefix = 0
+	}
 	if prefix&1 != 0 {
 		if err := A.s.SendMessage(ctx, []byte("c-hello")); err != nil {
 			return fail("harness", "%v", err)
@@ -81,7 +111,7 @@ func c12Run(id string, prefix int, hist []int) *vlib.Result {
 	B.dir, _ = refcodec.NewDir(testKey, B.clearD.Sum(), A.clearD.Sum())
 	encOn := true
 	stateKey := func() string {
-		return fmt.Sprintf("p%d/a%d/b%d/e%v", prefix, A.sent, B.sent, encOn)
+		return fmt.Sprintf("p%d/a%d/b%d/e%v", shape, A.sent, B.sent, encOn)
 	}
 	res.States = append(res.States, stateKey())
 	protected := 0
@@ -318,7 +348,7 @@ func c12CounterEdge(start uint32) *vlib.Result {
 func C12Plan() *vlib.Plan {
 	p := &vlib.Plan{
 		Property: "C12", Level: "model_checking",
-		Rule:   "E-BFS over send histories: all sequences of length <= D over 11 operations (A/B sends 0/1/17/5000 bytes, A/B sends a secret, toggle crypto mode) x 4 cleartext-prefix shapes, each replayed on two fresh real streams; state = (prefix shape, protected frames sent per direction, crypto mode). Every protected frame is opened by the independent reference decryptor (nonce = base IV word0 + counter, AAD = header / digests||header on the first frame), IVs compared across directions and all sessions of the run, reference-built frames fed to the real receiver; counter edge through imported state. Non-trivial = history emitted >= 1 protected frame.",
+		Rule:   "E-BFS over send histories: all sequences of length <= D over 11 operations (A/B sends 0/1/17/5000 bytes, A/B sends a secret, toggle crypto mode) x 7 cleartext-prefix shapes (none / A / B / both send a message; A / B / both send only zero-length frames), each replayed on two fresh real streams; state = (prefix shape, protected frames sent per direction, crypto mode). Every protected frame is opened by the independent reference decryptor (nonce = base IV word0 + counter, AAD = header / digests||header on the first frame), IVs compared across directions and all sessions of the run, reference-built frames fed to the real receiver; counter edge through imported state. Non-trivial = history emitted >= 1 protected frame.",
 		Assume: []string{"reference decryptor written from the property text (refcodec), uses Go's AES-GCM primitive", "IV randomness is judged only by distinctness over all sessions of the run"},
 	}
 	p.Gen = func(tier string, yield func(vlib.Case)) {
@@ -326,8 +356,8 @@ func C12Plan() *vlib.Plan {
 		if tier == "thorough" {
 			D = 5
 		}
-		p.Bounds = map[string]any{"history_depth": D, "ops": c12Ops, "prefix_shapes": 4}
-		for prefix := 0; prefix < 4; prefix++ {
+		p.Bounds = map[string]any{"history_depth": D, "ops": c12Ops, "prefix_shapes": 7}
+		for prefix := 0; prefix < 7; prefix++ {
 			var rec func(h []int)
 			rec = func(h []int) {
 				hh := append([]int(nil), h...)
